@@ -3,6 +3,7 @@ package hamt
 import (
 	"context"
 	"fmt"
+	"sync"
 
 	bitfield "github.com/ipfs/go-bitfield"
 	"github.com/ipfs/go-unixfsnode/data"
@@ -33,6 +34,10 @@ type _UnixFSHAMTShard struct {
 	bitfield     bitfield.Bitfield
 	shardCache   map[ipld.Link]*_UnixFSHAMTShard
 	cachedLength int64
+
+	// mu guards shardCache and cachedLength: a reified node may be read from
+	// several goroutines at once
+	mu sync.Mutex
 }
 
 // NewUnixFSHAMTShard attempts to construct a UnixFSHAMTShard node from the base protobuf node plus
@@ -148,7 +153,9 @@ func AttemptHAMTShardFromNode(ctx context.Context, nd ipld.Node, lsys *ipld.Link
 }
 
 func (n UnixFSHAMTShard) loadChild(pbLink dagpb.PBLink) (UnixFSHAMTShard, error) {
+	n.mu.Lock()
 	cached, ok := n.shardCache[pbLink.FieldHash().Link()]
+	n.mu.Unlock()
 	if ok {
 		return cached, nil
 	}
@@ -165,7 +172,14 @@ func (n UnixFSHAMTShard) loadChild(pbLink dagpb.PBLink) (UnixFSHAMTShard, error)
 	if und.data.FieldFanout().Must().Int() != n.data.FieldFanout().Must().Int() {
 		return nil, ErrHAMTFanoutMismatch
 	}
-	n.shardCache[pbLink.FieldHash().Link()] = und
+	n.mu.Lock()
+	if existing, ok := n.shardCache[pbLink.FieldHash().Link()]; ok {
+		// another goroutine loaded the same child meanwhile: share its instance
+		und = existing
+	} else {
+		n.shardCache[pbLink.FieldHash().Link()] = und
+	}
+	n.mu.Unlock()
 	return und, nil
 }
 
@@ -270,8 +284,11 @@ func (n UnixFSHAMTShard) ListIterator() ipld.ListIterator {
 // Length returns the length of a list, or the number of entries in a map,
 // or -1 if the node is not of list nor map kind.
 func (n UnixFSHAMTShard) length() (int64, error) {
-	if n.cachedLength != -1 {
-		return n.cachedLength, nil
+	n.mu.Lock()
+	cachedLength := n.cachedLength
+	n.mu.Unlock()
+	if cachedLength != -1 {
+		return cachedLength, nil
 	}
 	maxPadLen := maxPadLength(n.data)
 	total := int64(0)
@@ -296,7 +313,9 @@ func (n UnixFSHAMTShard) length() (int64, error) {
 			total += cl
 		}
 	}
+	n.mu.Lock()
 	n.cachedLength = total
+	n.mu.Unlock()
 	return total, nil
 }
 
